@@ -31,10 +31,17 @@ func inDom(v int64) bool { return vrt.And(v > -dom52, v < dom52) }
 // specRHA is n/d rounded half away from zero, d != 0, integers only, branch-free:
 // |q| = floor((floor(2|n|/|d|) + 1) / 2), sign of n/d.
 func specRHA(n, d int64) int64 {
-	an := vrt.IteInt64(n < 0, -n, n)
-	ad := vrt.IteInt64(d < 0, -d, d)
+	// rounding half away from zero is odd in n: it is computed on the sign-canonical orientation of n and
+	// re-signed, so that the results for n and -n are syntactically opposite terms
+	cn, flipped := vrt.Orient64(n)
+	an := vrt.Abs64(cn)
+	ad := vrt.Abs64(d)
 	q := vrt.DivFloor(vrt.DivFloor(2*an, ad)+1, 2)
-	return vrt.IteInt64((n < 0) != (d < 0), -q, q)
+	r := vrt.IteInt64((cn < 0) != (d < 0), -q, q)
+	if flipped {
+		return -r
+	}
+	return r
 }
 
 func specRescale(a Amount, exp uint32) Amount {
